@@ -20,6 +20,7 @@ pub fn no_child(_: &[String]) -> i32 {
 
 pub mod okey;
 pub mod engine;
+pub mod bulk;
 
 pub fn all() -> Vec<StreamDef> {
     vec![
@@ -28,6 +29,7 @@ pub fn all() -> Vec<StreamDef> {
         engine::def_reopen(),
         engine::def_compact(),
         engine::def_abort(),
+        bulk::def(),
     ]
 }
 
